@@ -234,6 +234,11 @@ func recogniserConflicts(c *Ctx, p *Prog, db *dbModel, rule string) {
 	// is the focus parser held back while something earlier is partial?
 	heldBack := false
 	if collect := collectLoopFn(p); collect != nil {
+		isParser := map[*ssa.Function]bool{}
+		for _, pi := range inputParsers(p) {
+			isParser[pi.fn] = true
+		}
+		indCollect, _ := pendingIndicator(collect, isParser)
 		for _, call := range callsIn(collect, func(n string, _ *ssa.CallCommon) bool { return strings.HasSuffix(n, "tScreen).parseFocus") }) {
 			// reached only through `partials == 0 || expire`
 			b := call.Block()
@@ -244,12 +249,19 @@ func recogniserConflicts(c *Ctx, p *Prog, db *dbModel, rule string) {
 					continue
 				}
 				iff, isIf := pr.Instrs[len(pr.Instrs)-1].(*ssa.If)
-				if !isIf || pr.Succs[0] != b {
+				if !isIf {
 					ok = false
 					continue
 				}
+				// the edge into the call is either "nothing is pending" or "the wait is over"
+				if idx, isInd := nothingPendingEdge(iff.Cond, indCollect); isInd {
+					if pr.Succs[idx] != b {
+						ok = false
+					}
+					continue
+				}
 				as := valName(iff.Cond)
-				if !(strings.Contains(as, "partials") || strings.Contains(as, "expire")) {
+				if !strings.Contains(as, "expire") || pr.Succs[0] != b {
 					ok = false
 				}
 			}
@@ -882,4 +894,31 @@ func c14FoundBaseIsUsed(c *Ctx, p *Prog) {
 	if n == 0 {
 		c.Undecided("C14-R9", "LookupTerminfo:fallbacks", p.pos(fn.Pos()), "no fallback lookups found")
 	}
+}
+
+// nothingPendingEdge: if cond is a plain test of the pending indicator, the successor index taken when
+// nothing is pending.
+func nothingPendingEdge(cond ssa.Value, ind map[ssa.Value]bool) (int, bool) {
+	v, pos := condKey(cond)
+	if ind[v] { // a bool: true means pending
+		if pos {
+			return 1, true
+		}
+		return 0, true
+	}
+	if bo, ok := v.(*ssa.BinOp); ok && ind[bo.X] {
+		if k, isK := constInt(bo.Y); isK && k == 0 {
+			nothing := 0 // ind == 0 is true on edge 0
+			if bo.Op == token.NEQ || bo.Op == token.GTR {
+				nothing = 1
+			} else if bo.Op != token.EQL {
+				return 0, false
+			}
+			if !pos {
+				nothing = 1 - nothing
+			}
+			return nothing, true
+		}
+	}
+	return 0, false
 }
